@@ -98,3 +98,24 @@ theorem readInsert_ok (lit cmd : Code) (mlen k : Nat) (out : Bytes) (sym ic cc i
   simp
 
 end BV.MetaBlock
+
+namespace BV.MetaBlock
+open BV.Recoder BV.Bits
+
+/-- `hIP` made concrete: with a ring of exactly `mask + 1` bytes (the encoder's ring buffer: a power of two)
+and a meta-block not longer than the ring, both slices of `InputPairFromMaskedInput` are inside the buffer -/
+theorem inputPairCheck_ok (ring : Bytes) (start len mask : Nat) (hr : ring.length = mask + 1)
+    (hl : len ≤ ring.length) : inputPairCheck ring start len mask = .ok () := by
+  have hm : start &&& mask ≤ mask := Nat.and_le_right
+  have key : inputPairFromMaskedInput ring start len mask ≠ none := by
+    unfold inputPairFromMaskedInput
+    simp only
+    by_cases hwrap : (start &&& mask) + len > mask + 1
+    · rw [if_pos hwrap, if_pos ⟨by omega, by omega⟩]; simp
+    · rw [if_neg hwrap, if_pos (by omega)]; simp
+  unfold inputPairCheck
+  cases h : inputPairFromMaskedInput ring start len mask with
+  | none => exact absurd h key
+  | some p => rfl
+
+end BV.MetaBlock
